@@ -77,6 +77,11 @@ Definition f_fourpi : float := PrimFloat.mul 4%float f_pi.        (* 4 * np.pi *
 Definition flag (x : float) : bool :=
   match pymod x f_halfpi with Some r => is_integer r | None => false end.
 
+(* after repair D, _CRn_.clifford tests theta / 2:
+     isinstance(theta, (float, int)) and _is_clifford_given_angle(theta / 2)
+   (int / 2 is Python's correctly rounded true division: exact for |k| < 2^53) *)
+Definition flag_half (x : float) : bool := flag (PrimFloat.div x 2%float).
+
 Inductive pyval := PFloat (f : float) | PInt (k : Z) | POther.
 (* isinstance(angle, (float, int)) and (angle % (np.pi/2)).is_integer();  np.float64 is a float
    subclass (PFloat); np.float32, sympy/Parameter objects, complex ... are POther *)
@@ -84,6 +89,13 @@ Definition is_clifford_given_angle (a : pyval) : bool :=
   match a with
   | PFloat f => flag f
   | PInt k => flag (float_of_Z k)
+  | POther => false
+  end.
+
+Definition is_clifford_given_half_angle (a : pyval) : bool :=
+  match a with
+  | PFloat f => flag_half f
+  | PInt k => flag_half (float_of_Z k)
   | POther => false
   end.
 
